@@ -227,6 +227,11 @@ def ttml(rng):
         ps.append("<p%s>%s</p>" % (_attrs(a), inner))
       if rng.random() < 0.15:
         ps.append("<div%s><p>%s</p></div>" % (_attrs(_timing(rng, 0.4) + _common(rng, ctx)), _inline(rng, ctx, 0)))
+      if len(ctx["regions"]) > 1 and rng.random() < 0.25:
+        # open-ended cues in different regions at the end of the programme
+        t0 = rng.choice(["10s", "20s", "00:00:30.000"])
+        for rid in rng.sample(ctx["regions"], 2):
+          ps.append('<p begin="%s" region="%s">%s</p>' % (t0 if rng.random() < 0.7 else "25s", rid, rng.choice(["tail A", "tail <span>B</span>", "x<br/>y"])))
       sep = rng.choice(["", "\n  "])
       divs.append("<div%s>%s</div>" % (_attrs(_timing(rng, 0.3) + _styles(rng, rng.choice([0, 0, 1])) + _common(rng, ctx)), sep.join(ps)))
     a = _timing(rng, 0.2) + _styles(rng, rng.choice([0, 0, 1])) + _common(rng, ctx)
